@@ -3,6 +3,7 @@ CONSTANTS
   Procs <- P4
   Types <- XpTypes
   ChildSeq <- XpChild
+  Invalid <- NoneInvalid
   Pkg <- XpPkg
   CallChoices <- NoCalls
   Guard = "mutex"
